@@ -295,6 +295,43 @@ def expected_counts(spec):
     return n
 
 
+def tree_of_spec(spec):
+    """nested dict name(bytes) -> subtree | None (leaf) of what the image must contain"""
+    root = {}
+    for e in spec["entries"]:
+        if spec["tool"] == "tar2sqfs" and e["type"] == "sock":
+            continue
+        parts = [p.encode() for p in e["path"].split("/")]
+        d = root
+        for p in parts[:-1]:
+            if d.get(p) is None:
+                d[p] = {}
+            d = d[p]
+        if e["type"] == "dir":
+            if d.get(parts[-1]) is None:
+                d[parts[-1]] = {}
+        else:
+            d[parts[-1]] = None
+    return root
+
+
+def encode_tree(tree):
+    """(string for the model's N command, list of name-paths in the order of the model's index paths)"""
+    paths = {}
+
+    def enc(d, ipath, npath):
+        paths[ipath] = npath
+        if d is None:
+            return "L"
+        out = ["D("]
+        for i, nm in enumerate(sorted(d)):
+            out.append(enc(d[nm], ipath + (i,), npath + (nm,)))
+        out.append(")")
+        return "".join(out)
+    s = enc(tree, (), ())
+    return s, paths
+
+
 def plan(rnd, tier):
     """list of specs for this run"""
     specs = []
@@ -323,7 +360,7 @@ def plan(rnd, tier):
             specs.append(gen_spec(rnd, "manydirs", "gensquashfs", comp, 4096, True, False, 4096, big=True))
             specs.append(gen_spec(rnd, "xattrs", "gensquashfs", comp, 8192, False, False, 4096, big=True))
             specs.append(gen_spec(rnd, "bigids", "gensquashfs", comp, 8192, False, False, 4096, big=True))
-        for _ in range(60):
+        for _ in range(150):
             specs.append(gen_spec(rnd, "random", rnd.choice(["gensquashfs", "tar2sqfs"]), rnd.choice(COMPS), rnd.choice(bss),
                                   rnd.random() < 0.5, rnd.random() < 0.3, rnd.choice(devs)))
     return specs
@@ -353,6 +390,8 @@ def job(args):
             if not any(b.startswith("walk:") for b in res["bad"]):
                 st = ve.stats(img)
                 res["stats"] = st
+                if not any(e["type"] == "link" for e in spec["entries"]):
+                    res["inos"] = {p: n.ino for p, n in img.walk().items()}
                 exp = expected_counts(spec)
                 if st["inodes"] != exp or img.super["inode_count"] != exp:
                     res["bad"].append("image has %d inodes (super block says %d), the input describes %d"
